@@ -117,7 +117,11 @@ func c06Decode(v int, data []byte, bufSize int, measure bool) c06Res {
 	// A genuine hang is an endless loop: it also outlasts a second, longer attempt. The
 	// retry keeps a scheduling stall on a loaded machine (hundreds of MiB being zeroed for
 	// an input that declares them, see F-c06-alloc-declared-length) from being reported.
-	for _, limit := range []time.Duration{c06HangTimeout, 3 * c06HangTimeout} {
+	// An input that declares hundreds of MiB makes gmqtt allocate and zero them (see
+	// F-c06-alloc-declared-length); on a loaded machine that alone was measured to take up
+	// to 20 s, so the budget grows with the declared length (0.5 s per MiB).
+	base := c06HangTimeout + time.Duration(c06ParseHdr(data).lenient>>20)*500*time.Millisecond
+	for _, limit := range []time.Duration{base, 3 * base} {
 		done := make(chan c06Res, 1)
 		timer := time.NewTimer(limit)
 		go func() { done <- c06ReadOne(v, data, bufSize, true) }()
@@ -182,7 +186,7 @@ func c06Oracle12(v int, data []byte, bufSize int, c *ev.Case, region string) (c0
 	feats := []any{"version", v, "type", c06TypeName(data), "region", region}
 	res := c06Decode(v, data, bufSize, true)
 	if res.hung {
-		return res, ev.Violf("C06.hang", "ReadPacket did not return within %v on %s", c06HangTimeout, c06Hex(data)).With(feats...)
+		return res, ev.Violf("C06.hang", "ReadPacket did not return within the watchdog budget (%v + 0.5s per declared MiB), nor within three times that on a second attempt, on %s", c06HangTimeout, c06Hex(data)).With(feats...)
 	}
 	if res.panicked != "" {
 		return res, ev.Violf("C06.panic", "ReadPacket panicked on %s: %s", c06Hex(data), res.panicked).With(feats...)
